@@ -350,7 +350,11 @@ class AutoSerialize:
             byte_arr = np.frombuffer(buffer.read(), dtype="uint8")
             self._write_bytes(subgroup, "optimizer", byte_arr.tobytes(), compressors=None)
 
-        elif hasattr(value, "step") and hasattr(value, "get_last_lr"):
+        elif (
+            hasattr(value, "step")
+            and hasattr(value, "get_last_lr")
+            and not self._is_autoserialize_instance(value)
+        ):
             # Handle LR schedulers with torch.save for robustness
             subgroup = group.require_group(name)
             subgroup.attrs["_torch_scheduler"] = True
@@ -362,7 +366,11 @@ class AutoSerialize:
             byte_arr = np.frombuffer(buffer.read(), dtype="uint8")
             self._write_bytes(subgroup, "scheduler", byte_arr.tobytes(), compressors=None)
 
-        elif hasattr(value, "add_scalar") and hasattr(value, "add_image"):
+        elif (
+            hasattr(value, "add_scalar")
+            and hasattr(value, "add_image")
+            and not self._is_autoserialize_instance(value)
+        ):
             # Handle PyTorch loggers (SummaryWriter, etc.) - save basic info only
             subgroup = group.require_group(name)
             subgroup.attrs["_torch_logger"] = True
@@ -381,7 +389,11 @@ class AutoSerialize:
                 subgroup.attrs["filename_suffix"] = (
                     str(value.filename_suffix) if value.filename_suffix else ""
                 )
-        elif hasattr(value, "log") and hasattr(value, "info"):
+        elif (
+            hasattr(value, "log")
+            and hasattr(value, "info")
+            and not self._is_autoserialize_instance(value)
+        ):
             # Handle other logging objects (like Python's logging.Logger)
             subgroup = group.require_group(name)
             subgroup.attrs["_python_logger"] = True
@@ -413,7 +425,11 @@ class AutoSerialize:
         elif isinstance(value, (int, float, str, bool, type(None))):
             # Scalars saved as attributes
             group.attrs[name] = value
-        elif hasattr(value, "dtype") and hasattr(value, "item"):
+        elif (
+            hasattr(value, "dtype")
+            and hasattr(value, "item")
+            and not self._is_autoserialize_instance(value)
+        ):
             # Handle numpy scalar types (np.float32, np.int64, etc.)
             item = value.item()
             if isinstance(item, (int, float, str, bool)):
